@@ -609,48 +609,69 @@ pub enum MsgErr {
 }
 
 pub fn parse_message(msg: &[u8]) -> Result<RefMsg, MsgErr> {
+    match parse_message_prefix(msg) {
+        (Some(m), None) => Ok(m),
+        (_, Some(e)) => Err(e),
+        (None, None) => Err(MsgErr::ShortHeader),
+    }
+}
+
+/// Like `parse_message`, but also returns what could be parsed before the first error.
+pub fn parse_message_prefix(msg: &[u8]) -> (Option<RefMsg>, Option<MsgErr>) {
     if msg.len() < 12 {
-        return Err(MsgErr::ShortHeader);
+        return (None, Some(MsgErr::ShortHeader));
     }
     let u = |i: usize| u16::from_be_bytes([msg[i], msg[i + 1]]);
     let counts = [u(4), u(6), u(8), u(10)];
     let mut p = 12;
     let mut questions = Vec::new();
-    for i in 0..counts[0] as usize {
-        let (name, next, _) = read_name(msg, p).map_err(|_| MsgErr::Question(i))?;
-        if next + 4 > msg.len() {
-            return Err(MsgErr::Question(i));
-        }
-        questions.push(RefQuestion { name, qtype: u(next), qclass: u(next + 2) });
-        p = next + 4;
-    }
     let mut records = Vec::new();
-    let mut n = 0;
-    for sec in 1..=3u8 {
-        for _ in 0..counts[sec as usize] as usize {
-            let start = p;
-            let (owner, next, _) = read_name(msg, p).map_err(|_| MsgErr::Record(n))?;
-            if next + 10 > msg.len() {
-                return Err(MsgErr::Record(n));
-            }
-            let rtype = u(next);
-            let class = u(next + 2);
-            let ttl = u32::from_be_bytes([msg[next + 4], msg[next + 5], msg[next + 6], msg[next + 7]]);
-            let rdlen = u(next + 8) as usize;
-            let rs = next + 10;
-            if rs + rdlen > msg.len() {
-                return Err(MsgErr::Record(n));
-            }
-            let (rdata, rdc, rdl) = match decode_rdata(msg, rs, rdlen, rtype) {
-                Ok(fs) => (Some(compose_fields(&fs)), Some(compose_fields_canonical(&fs)), Some(compose_fields_lower_all(&fs))),
-                Err(_) => (None, None, None),
+    let mut err = None;
+    'all: {
+        for i in 0..counts[0] as usize {
+            let Ok((name, next, _)) = read_name(msg, p) else {
+                err = Some(MsgErr::Question(i));
+                break 'all;
             };
-            records.push(RefRecord { section: sec, owner, rtype, class, ttl, rdata, rdata_canonical: rdc, rdata_cmpform: rdl, raw_rdlen: rdlen, start, rdata_start: rs });
-            p = rs + rdlen;
-            n += 1;
+            if next + 4 > msg.len() {
+                err = Some(MsgErr::Question(i));
+                break 'all;
+            }
+            questions.push(RefQuestion { name, qtype: u(next), qclass: u(next + 2) });
+            p = next + 4;
+        }
+        let mut n = 0;
+        for sec in 1..=3u8 {
+            for _ in 0..counts[sec as usize] as usize {
+                let start = p;
+                let Ok((owner, next, _)) = read_name(msg, p) else {
+                    err = Some(MsgErr::Record(n));
+                    break 'all;
+                };
+                if next + 10 > msg.len() {
+                    err = Some(MsgErr::Record(n));
+                    break 'all;
+                }
+                let rtype = u(next);
+                let class = u(next + 2);
+                let ttl = u32::from_be_bytes([msg[next + 4], msg[next + 5], msg[next + 6], msg[next + 7]]);
+                let rdlen = u(next + 8) as usize;
+                let rs = next + 10;
+                if rs + rdlen > msg.len() {
+                    err = Some(MsgErr::Record(n));
+                    break 'all;
+                }
+                let (rdata, rdc, rdl) = match decode_rdata(msg, rs, rdlen, rtype) {
+                    Ok(fs) => (Some(compose_fields(&fs)), Some(compose_fields_canonical(&fs)), Some(compose_fields_lower_all(&fs))),
+                    Err(_) => (None, None, None),
+                };
+                records.push(RefRecord { section: sec, owner, rtype, class, ttl, rdata, rdata_canonical: rdc, rdata_cmpform: rdl, raw_rdlen: rdlen, start, rdata_start: rs });
+                p = rs + rdlen;
+                n += 1;
+            }
         }
     }
-    Ok(RefMsg { id: u(0), flags: u(2), counts, questions, records, end: p })
+    (Some(RefMsg { id: u(0), flags: u(2), counts, questions, records, end: p }), err)
 }
 
 /// Compose an uncompressed record.
